@@ -374,7 +374,33 @@ func c09clearReuse(c *core.Ctx) {
 			}
 		}
 	}
-	s.Run(progs)
+	// a third of the cases are "directed": phase 1 is sequential (every key cleared,
+	// then ONE first use of a new key, which leaves the cleared keys expunged and the
+	// new key in the dirty half only) and phase 2 is always the concurrent one
+	directed := r.Chance(1, 3)
+	if directed {
+		hooksOff()
+		// a key that is used but never cleared keeps the dirty half bigger than one entry,
+		// so that the single first use below does not promote it right away
+		km.acquire(kLock, 50)
+		km.release(kLock, 50)
+		km.acquire(kLock, 50)
+		km.release(kLock, 50)
+		for a := 0; a < na; a++ {
+			km.clear(a)
+			events = append(events, fmt.Sprintf("ClearKey(k%d)", a))
+		}
+		km.acquire(kLock, 100)
+		km.release(kLock, 100)
+		events = append(events, "LockKey(k100)+UnlockKey(k100) [first use of a new key]")
+		if fresh < 101 {
+			fresh = 101
+		}
+		s.Run([]func(int){func(int) {}})
+		c.Count("tierb_clear_reuse_directed", 1)
+	} else {
+		s.Run(progs)
+	}
 	hooksOff()
 	c.Count("tierb_clear_reuse_schedules", 1)
 	c.Count("tierb_schedules", 1)
@@ -396,7 +422,96 @@ func c09clearReuse(c *core.Ctx) {
 		c.Inconclusive("schedule exceeded the step bound")
 		return
 	}
-	// phase 2, sequential: reuse every cleared key
+	// phase 2, in half of the cases CONCURRENT: the cleared keys are used again while
+	// other goroutines generate traffic on different keys only (second accesses of the
+	// keys first used in phase 1: promotions; first uses of further new keys: rebuilds
+	// of the dirty half). Whatever that traffic does to the map, an acquisition of a
+	// cleared key must neither fail nor hand out a second mutex.
+	var phase2Trace uint64
+	if directed || r.Bool() {
+		s2 := sched.New(r.Fork(), r.Intn(3))
+		holders := make([]int, na)
+		var ev2 []string
+		var bad string
+		nw2 := r.Range(3, 4)
+		progs2 := make([]func(int), nw2)
+		desc := make([]string, nw2)
+		for w := range progs2 {
+			w := w
+			switch {
+			case w < 2 && (w == 0 || r.Bool()): // reuse a cleared key (two workers may pick the same one)
+				a := r.Intn(na)
+				try := w == 1 && r.Bool()
+				desc[w] = fmt.Sprintf("lock/unlock cleared k%d (try=%v)", a, try)
+				progs2[w] = func(int) {
+					for i := 0; i < 2; i++ {
+						if try {
+							if !km.acquire(kTryLock, a) {
+								ev2 = append(ev2, fmt.Sprintf("w%d TryLockKey(k%d)=false", w, a))
+								continue
+							}
+						} else {
+							km.acquire(kLock, a)
+						}
+						holders[a]++
+						ev2 = append(ev2, fmt.Sprintf("w%d holds k%d", w, a))
+						if holders[a] > 1 && bad == "" {
+							bad = fmt.Sprintf("worker %d entered the critical section of the cleared-and-reused key %d while another worker is inside", w, a)
+						}
+						s2.Yield(900)
+						holders[a]--
+						km.release(kLock, a)
+						ev2 = append(ev2, fmt.Sprintf("w%d released k%d", w, a))
+					}
+				}
+			case w == nw2-1: // first uses of never-seen keys
+				k0 := fresh + 10
+				desc[w] = fmt.Sprintf("first uses of k%d,k%d", k0, k0+1)
+				progs2[w] = func(int) {
+					for i := 0; i < 2; i++ {
+						km.acquire(kLock, k0+i)
+						km.release(kLock, k0+i)
+						ev2 = append(ev2, fmt.Sprintf("w%d used new k%d", w, k0+i))
+					}
+				}
+			default: // further accesses of the keys first used in phase 1
+				desc[w] = "second accesses of phase-1 keys"
+				progs2[w] = func(int) {
+					for i := 0; i < 3; i++ {
+						k := 100 + r.Intn(fresh-100+1)
+						km.acquire(kLock, k)
+						km.release(kLock, k)
+						ev2 = append(ev2, fmt.Sprintf("w%d used k%d", w, k))
+					}
+				}
+			}
+		}
+		hooksTierB(s2)
+		s2.Run(progs2)
+		hooksOff()
+		c.Count("tierb_clear_reuse_concurrent_phase2", 1)
+		if s2.Switches >= 1 {
+			phase2Trace = s2.Trace | 1
+		}
+		c.Count("tierb_steps", int64(s2.Steps))
+		c.Distinct("tierb_distinct_schedules", s2.Trace)
+		extra["phase2_programs"], extra["phase2_events"] = desc, ev2
+		switch {
+		case s2.Panic != nil:
+			c.Violate("clear-reuse:panic["+kind+"]", fmt.Sprintf("using a cleared key again while other goroutines use different keys panicked: %v", s2.Panic), extra)
+			return
+		case bad != "":
+			c.Violate("clear-reuse:mutual-exclusion["+kind+"]", bad, extra)
+			return
+		case s2.Deadlock:
+			c.Violate("clear-reuse:deadlock["+kind+"]", fmt.Sprintf("deadlock while cleared keys are used again next to traffic on other keys (sites %v)", s2.BlockedAt), extra)
+			return
+		case s2.Overrun:
+			c.Inconclusive("schedule exceeded the step bound")
+			return
+		}
+	}
+	// phase 3, sequential: reuse every cleared key
 	var post []string
 	extra["after"] = &post
 	for a := 0; a < na; a++ {
@@ -431,8 +546,8 @@ func c09clearReuse(c *core.Ctx) {
 		km.release(kTryLock, a)
 		c.Count("tierb_cleared_keys_reused", 1)
 	}
-	if s.Switches >= 1 {
-		c.NonTrivial(s.Trace)
+	if s.Switches >= 1 || phase2Trace != 0 {
+		c.NonTrivial(core.Mix(s.Trace, phase2Trace))
 	}
 	if c.WantSample() {
 		c.Sample(map[string]any{"mode": "tierb/clear-reuse", "type": kind, "prefix": pre, "programs": fmt.Sprint(progsDesc), "events": events, "after": post})
@@ -507,6 +622,19 @@ func c09free(c *core.Ctx) {
 			// cross-key independence as hold-and-wait: A holds k1 until B got and released k2
 			k1, k2 := nextKey, nextKey+1
 			nextKey += 2
+			// a third of these rounds use a SECOND keyed mutex of the same type for B, with
+			// the very same key: two values must not share anything
+			kmB := km
+			if r.Chance(1, 3) {
+				kmB = &keyed{rw: km.rw}
+				if km.rw {
+					kmB.rwm = new(sync2.KeyedRWMutex[int])
+				} else {
+					kmB.m = new(sync2.KeyedMutex[int])
+				}
+				k2 = k1
+				c.Count("free_same_key_on_two_instances_rounds", 1)
+			}
 			bDone := make(chan struct{})
 			aHolds := make(chan struct{})
 			var hw sync.WaitGroup
@@ -528,19 +656,19 @@ func c09free(c *core.Ctx) {
 				if seeds[0]&2 == 2 {
 					// Try on a different, free key must succeed while k1 is held
 					tk := kTryLock
-					if !km.acquire(tk, k2) {
-						flag("free:Try-fails-on-other-key", "TryLockKey on a free key failed while a different key was held")
+					if !kmB.acquire(tk, k2) {
+						flag("free:Try-fails-on-other-key", "TryLockKey on a free key failed while a different key (or the same key of another keyed mutex) was held")
 					} else {
-						km.release(tk, k2)
+						kmB.release(tk, k2)
 					}
 				}
-				km.acquire(kd, k2)
-				km.release(kd, k2)
+				kmB.acquire(kd, k2)
+				kmB.release(kd, k2)
 				close(bDone)
 			}()
 			if st, where := core.WaitOrDeadlock(&hw, 2*time.Second, 30*time.Second); st != "done" {
 				if st == "deadlock" {
-					flag("free:cross-key-deadlock", "goroutine A holds key k1 and waits for B; B can never acquire the different key k2: "+where)
+					flag("free:cross-key-deadlock", "goroutine A holds key k1 and waits for B; B can never acquire the different key k2 (or the same key of a second keyed mutex): "+where)
 					crossKeyStuck.Store(true)
 					break
 				}
